@@ -60,6 +60,8 @@ with concurrent.futures.ThreadPoolExecutor(jobs) as ex:
         flag = ""
         if verdict == "patch-does-not-apply" and meta.get("obsolete"):
             verdict = "obsolete (" + meta["obsolete"][:60] + "...)"
+        elif kind == "seeded" and meta.get("caught") and verdict != "caught" and meta.get("tier") == "thorough":
+            flag = "  (caught by the thorough tier only; this regression runs the quick tier)"
         elif kind == "seeded" and meta.get("caught") and verdict != "caught":
             flag = "  <-- REGRESSION"
             bad = 1
